@@ -657,7 +657,12 @@ impl<'a, T: std::fmt::Debug> WaitingState<'a, T> {
                         Event::Release(i, j) => {
                             // release chord quickly by changing the coordinate to the released
                             // key, to be consistent with chord decomposition behaviour.
-                            released_coord = Some((i, j));
+                            // Only a key of this chord can stand for it: the release of a group
+                            // key whose press was consumed before this chord began still ends
+                            // the collection, but the chord is not that key's.
+                            if active & chord_keys != 0 {
+                                released_coord = Some((i, j));
+                            }
                             Err(active)
                         }
                     }
@@ -751,7 +756,9 @@ impl<'a, T: std::fmt::Debug> WaitingState<'a, T> {
                         Ok(active | chord_keys)
                     }
                     Event::Release(i, j) => {
-                        default_associated_coord = (i, j);
+                        if active & chord_keys != 0 {
+                            default_associated_coord = (i, j);
+                        }
                         Err(active) // released a chord key, abort
                     }
                 }
